@@ -61,7 +61,7 @@ type g_alt = { g_sym : int; g_lits : (coq_Z * bool) list; g_first : int list; g_
 type g_spec = {
   s_ntok : int;
   s_defs : pdef list;
-  s_nested : (int list * int list * int list) list;   (* first tokens of the two sides, the two guard nonterminals *)
+  s_nested : (int * (coq_Z * bool) list * int list) list list;   (* per guarded predicate, per side: guard nonterminal, guard, first tokens *)
   s_las : (int * (coq_Z * bool) list) list;             (* compiled lookahead nonterminals *)
   s_points : (int * g_alt list) list;
 }
@@ -73,12 +73,13 @@ let firsts_of ntok seqs =
 let get_spec x =
   let ntok = get_int (field "ntok" x) in
   let preds = lst (field "preds" x) in
+  let side x = (match lst x with [sym; g; sq] -> (get_int sym, get_lits g, get_seqs sq) | _ -> failwith "side") in
   let defs = Stdlib.List.map (fun p -> match lst p with
-    | [i; g; s; sn; _] -> { p_input = get_z i; p_guard = get_z g; p_seqs = get_seqs s; p_seqs_not = get_seqs sn }
+    | [i; sides] -> { p_input = get_z i; p_sides = Stdlib.List.map (fun x -> let (_, g, sq) = side x in (g, sq)) (lst sides) }
     | _ -> failwith "pred") preds in
   let nested = Stdlib.List.filter_map (fun p -> match lst p with
-    | [_; g; s; sn; gs] when get_int g >= 0 ->
-      Some (firsts_of ntok (get_seqs s), firsts_of ntok (get_seqs sn), Stdlib.List.map get_int (lst gs))
+    | [i; sides] when Stdlib.List.length (lst sides) > 1 && get_int i >= 0 ->
+      Some (Stdlib.List.map (fun x -> let (sym, g, sq) = side x in (sym, g, firsts_of ntok sq)) (lst sides))
     | _ -> None) preds in
   let las = get_list (fun la -> match lst la with [nt; ps] -> (get_int nt, get_lits ps) | _ -> failwith "la") (field "las" x) in
   let points = get_list (fun p -> match lst p with
@@ -97,6 +98,8 @@ let alts_of (p : g_alt list) : alt list =
 let source_matches sp =
   Stdlib.List.for_all (fun (_, alts) -> Stdlib.List.for_all (fun a ->
     a.g_sym >= 0 && (match Stdlib.List.assoc_opt a.g_sym sp.s_las with Some ps -> ps = a.g_lits | None -> false)) alts) sp.s_points
+  && Stdlib.List.for_all (fun sides -> Stdlib.List.for_all (fun (sym, g, _) ->
+    sym >= 0 && (match Stdlib.List.assoc_opt sym sp.s_las with Some ps -> ps = g | None -> false)) sides) sp.s_nested
 
 (* the sets of lookahead nonterminals that conflict on some terminal (>= 2 members), from the source grammar *)
 let expected_groups sp =
@@ -104,9 +107,9 @@ let expected_groups sp =
   let from_points = Stdlib.List.concat_map (fun (_, alts) ->
     Stdlib.List.map (fun t ->
       Stdlib.List.map (fun a -> int_of_z a.a_la.la_nonterm) (LookaheadRun.group (alts_of alts) (z_of_int t))) toks) sp.s_points in
-  let from_nested = Stdlib.List.concat_map (fun (f1, f2, gs) ->
-    if Stdlib.List.exists (fun s -> s <= 0) gs then [] else
-    Stdlib.List.filter_map (fun t -> if Stdlib.List.mem t f1 && Stdlib.List.mem t f2 then Some (Stdlib.List.sort compare gs) else None) toks) sp.s_nested in
+  let from_nested = Stdlib.List.concat_map (fun sides ->
+    Stdlib.List.map (fun t ->
+      Stdlib.List.sort_uniq compare (Stdlib.List.filter_map (fun (sym, _, f) -> if Stdlib.List.mem t f then Some sym else None) sides)) toks) sp.s_nested in
   Stdlib.List.sort_uniq compare (Stdlib.List.filter (fun g -> Stdlib.List.length g >= 2) (from_points @ from_nested))
 
 let las_of_group sp g =
@@ -114,18 +117,20 @@ let las_of_group sp g =
 
 let rule_text las = (match Lookahead.new_rule las with LaOk r -> put_rule r | LaErr w -> L [A "err"; put_z w])
 
-(* all assignments over the inputs of a set: when exactly one alternative holds the rule must return it *)
-let truth_table_ok las r =
+(* all assignments over the inputs of a set: when exactly one alternative holds the rule must return it;
+   no assignment may satisfy two alternatives of an accepted set *)
+let truth_table las r =
   let inputs = Stdlib.List.sort_uniq compare (Stdlib.List.concat_map (fun la -> Stdlib.List.map (fun (i, _) -> int_of_z i) la.la_preds) las) in
   let n = Stdlib.List.length inputs in
-  let ok = ref true in
+  let ok = ref "ok" in
   for mask = 0 to (1 lsl n) - 1 do
     let rho z = (let i = int_of_z z in
       let rec idx l k = (match l with [] -> -1 | x :: t -> if x = i then k else idx t (k + 1)) in
       let k = idx inputs 0 in k >= 0 && (mask lsr k) land 1 = 1) in
     (match Stdlib.List.filter (fun la -> Lookahead.holds rho la) las with
-     | [la] -> if Lookahead.eval_rule r rho <> la.la_nonterm then ok := false
-     | _ -> ())
+     | [] -> ()
+     | [la] -> if Lookahead.eval_rule r rho <> la.la_nonterm then ok := "bad:table-rule-selects-alternative-whose-predicates-do-not-hold"
+     | _ -> if !ok = "ok" then ok := "bad:non-exclusive-set-accepted")
   done;
   !ok
 
@@ -142,8 +147,8 @@ let () = Reg.register "c08.gen.tables" (fun inp out ->
            { r_cases = get_list (fun c -> match lst c with [i; ng; t] -> ((get_z i, get_bool ng), get_z t) | _ -> failwith "case") cases;
              r_default = get_z dflt })
         | _ -> failwith "rule") (lst out) in
-      if Stdlib.List.exists (fun (key, r) -> not (truth_table_ok (las_of_group sp key) r)) rules
-      then "bad:table-rule-selects-alternative-whose-predicates-do-not-hold"
+      let tt = Stdlib.List.fold_left (fun acc (key, r) -> if acc <> "ok" then acc else truth_table (las_of_group sp key) r) "ok" rules in
+      if tt <> "ok" then tt
       else if Stdlib.List.sort_uniq compare (Stdlib.List.map Stdlib.fst rules) <> groups
       then "bad:table-rules-are-not-the-sets-of-conflicting-alternatives"
       else "ok"
@@ -213,7 +218,7 @@ let () = Reg.register "c08.gen.run" (fun inp out ->
     with Failure _ -> "bad:unparsable") in
   (model, verdict))
 
-(* rejected grammars: input ((tm ..) (opts ..) (ntok n) (points ((key ((lits first) ..)) ..)) (nested ((j g) ..)));
+(* rejected grammars: input ((tm ..) (opts ..) (ntok n) (points ((key ((lits first) ..)) ..)) (nested ((guard ..) ..)));
    literals carry predicate numbers; impl = (rejected ((why (exprs..)) ..) other-errors) *)
 let () = Reg.register "c08.gen.reject" (fun inp out ->
   let ntok = get_int (field "ntok" inp) in
@@ -221,13 +226,13 @@ let () = Reg.register "c08.gen.reject" (fun inp out ->
   let points = get_list (fun p -> match lst p with
     | [_; alts] -> get_list (fun a -> match lst a with [lits; first] -> (get_lits lits, get_list get_int first) | _ -> failwith "alt") alts
     | _ -> failwith "point") (field "points" inp) in
-  let nested = get_list (fun p -> match lst p with [_; g] -> get_z g | _ -> failwith "nested") (field "nested" inp) in
+  let nested = get_list (fun p -> get_list get_lits p) (field "nested" inp) in
   let norm g = Stdlib.List.sort_uniq compare g in
   let groups =
     Stdlib.List.sort_uniq compare (Stdlib.List.filter (fun g -> Stdlib.List.length g >= 2)
       (Stdlib.List.concat_map (fun alts -> Stdlib.List.map (fun t ->
           norm (Stdlib.List.filter_map (fun (l, f) -> if Stdlib.List.mem t f then Some l else None) alts)) toks) points
-       @ Stdlib.List.map (fun g -> norm [[(g, false)]; [(g, true)]]) nested)) in
+       @ Stdlib.List.map norm nested)) in
   let mk exprs = Stdlib.List.mapi (fun i l -> { la_nonterm = z_of_int (100 + i); la_preds = l }) exprs in
   let put_expr l = put_list (fun (i, n) -> L [put_z i; put_bool n]) l in
   let model, verdict =
